@@ -238,8 +238,9 @@ Fixpoint mgood_run (ms : list state) (ls : list (nat * label)) : bool :=
 
 (* observed: number of connections; tagged labels; per connection, per call (registration order) the payload the caller
    got; table snapshots (number of labels before it, ids found in the tables of the adapters the accessor sees); ids left
-   at the end *)
-Definition c08_mtrace_case := (nat * list (nat * label) * list (list (option N)) * list (nat * list Z) * list Z)%type.
+   at the end; the connections whose adapter has a push callback and the payloads that callback was called with *)
+Definition c08_mtrace_case :=
+  (nat * list (nat * label) * list (list (option N)) * list (nat * list Z) * list Z * (list nat * list N))%type.
 
 Definition msnap_ok (n : nat) (ls : list (nat * label)) (sn : nat * list Z) : bool :=
   match mrun (repeat init n) (firstn (fst sn) ls) with
@@ -247,12 +248,22 @@ Definition msnap_ok (n : nat) (ls : list (nat * label)) (sn : nat * list Z) : bo
   | None => false
   end.
 
+(* payloads of the packets the receivers of an adapter routed to push handling (id 0) *)
+Definition pushed (s : state) : list N :=
+  flat_map (fun r => match r_pc r with RPush => [p_pay (r_pkt r)] | _ => [] end) (recvs s).
+Fixpoint ncount (x : N) (l : list N) : nat := match l with [] => O | y :: r => (if N.eqb x y then 1 else 0) + ncount x r end.
+Definition same_multiset (a b : list N) : bool :=
+  Nat.eqb (length a) (length b) && forallb (fun x => Nat.eqb (ncount x a) (ncount x b)) a.
+Definition push_ok (ms : list state) (pu : list nat * list N) : bool :=
+  same_multiset (flat_map (fun a => match nth_error ms a with Some s => pushed s | None => [] end) (fst pu)) (snd pu).
+
 Definition maccepts (c : c08_mtrace_case) : bool :=
-  let '(n, ls, obs, snaps, lft) := c in
+  let '(n, ls, obs, snaps, lft, pu) := c in
   mgood_run (repeat init n) ls && forallb (msnap_ok n ls) snaps &&
   match mrun (repeat init n) ls with
   | Some ms => all2 (fun s o => all2 outcome_matches (calls s) o) ms obs
                && forallb (fun s => match table s with [] => true | _ => false end) ms
                && match lft with [] => true | _ => false end
+               && push_ok ms pu
   | None => false
   end.
